@@ -11,6 +11,19 @@ type GenOpts struct {
 	KeyTypes []string // key types the consumer's valid token can be signed with
 	Refs     []string // "kid", "jwk" or both (kid-xor-jwk worlds)
 	Near     bool     // the consumer binds key ids to identities: draw near-miss attacker identities
+	JWKMeta  bool     // the verification key travels as a JWK in attacker-controlled data (embedded jwk, DID document): play with its alg / use / key_ops / kid
+}
+
+var jwkAlgPool = []string{"ES256", "ES384", "ES512", "PS256", "PS384", "PS512", "RS256", "RS384", "RS512", "EdDSA", "none", "HS256", "header", "omit"}
+
+func familyAlgs(keyType string) []string {
+	switch KeyFamily(keyType) {
+	case "EC":
+		return []string{"ES256", "ES384", "ES512"}
+	case "RSA":
+		return []string{"RS256", "RS512", "PS256", "PS384", "PS512", "RS384"}
+	}
+	return []string{"EdDSA", "HS256", "none"}
 }
 
 // AllAlgs is every algorithm name the generator puts into headers.
@@ -108,7 +121,11 @@ func Gen(t *rapid.T, o GenOpts) Variant {
 		Ref:  rapid.SampledFrom(o.Refs).Draw(t, "ref"),
 		Ser:  "compact",
 	}
-	v.T = rapid.SampledFrom(Templates).Draw(t, "template")
+	tpls := Templates
+	if o.JWKMeta {
+		tpls = append(append([]string{}, Templates...), "jwk-meta", "jwk-meta", "jwk-meta")
+	}
+	v.T = rapid.SampledFrom(tpls).Draw(t, "template")
 	valid := SigSpec{Signer: Victim}
 	otherAlgs := func() string {
 		if rapid.IntRange(0, 5).Draw(t, "weird") == 5 {
@@ -164,6 +181,28 @@ func Gen(t *rapid.T, o GenOpts) Variant {
 		s := SigSpec{Signer: Attacker}
 		if rapid.IntRange(0, 4).Draw(t, "extras") == 4 {
 			s.Inject = subset(t, "inject", keyInject, 1)
+		}
+		v.Sigs = []SigSpec{s}
+	case "jwk-meta":
+		// the key's JWK announces an algorithm / use / operations / key id of its own; the signature is made for the header's
+		// algorithm or for the JWK's
+		s := SigSpec{Signer: rapid.SampledFrom([]string{Victim, Victim, Victim, Attacker}).Draw(t, "signer")}
+		kt := v.VKey
+		if s.Signer == Attacker {
+			kt = v.AKey
+		}
+		if rapid.IntRange(0, 3).Draw(t, "fam") > 0 {
+			s.JWKAlg = rapid.SampledFrom(familyAlgs(kt)).Draw(t, "jwkalg")
+		} else {
+			s.JWKAlg = rapid.SampledFrom(jwkAlgPool).Draw(t, "jwkalg")
+		}
+		s.SignAs = rapid.SampledFrom([]string{"jwk-alg", "jwk-alg", ""}).Draw(t, "signas")
+		s.JWKUse = rapid.SampledFrom([]string{"", "", "sig", "enc"}).Draw(t, "use")
+		s.JWKOps = rapid.SampledFrom([]string{"", "", "verify", "sign", "encrypt"}).Draw(t, "ops")
+		s.JWKKid = rapid.SampledFrom([]string{"", "", "same", "other", "omit"}).Draw(t, "jwkkid")
+		if rapid.IntRange(0, 4).Draw(t, "hdralg") == 4 {
+			// an allowed header algorithm of the key's family other than the natural one
+			s.Alg = rapid.SampledFrom(familyAlgs(kt)).Draw(t, "alg")
 		}
 		v.Sigs = []SigSpec{s}
 	case "private-jwk":
